@@ -25,7 +25,8 @@ R = Registry(
         "static length bound of the truncation expressions in IdentifierPreparer._truncate_and_render_maxlen_name "
         "(<= max_) and SQLCompiler._truncated_identifier (<= label_length for counters below a printed power "
         "of 16), the over-long non-truncatable path raises IdentifierError, label_length <= max_identifier_length "
-        "is enforced; digests/counters use no hash()/id()/random/time and md5 is taken of the name only; the "
+        "is enforced against the server-detected limit (the check follows every write of max_identifier_length in "
+        "initialize(), subclass overrides included); digests/counters use no hash()/id()/random/time and md5 is taken of the name only; the "
         "per-class truncation counter is embedded and advanced on every path and results are memoised per "
         "(class, name); every documented naming-convention token dispatches to an existing ConventionDict "
         "method and conv() names bypass the convention through the explicit isinstance test; "
@@ -270,9 +271,11 @@ def _limit_kind(lim):
     return None
 
 
-@R.rule("C21-R1", floor=8, template="T-TABLE (linear length bound)",
+@R.rule("C21-R1", floor=10, template="T-TABLE (linear length bound) / T-PATH (def-use order)",
         desc="truncation expressions are statically no longer than their limit; over-long plain names raise "
-             "IdentifierError; index/constraint limits are what is passed in; label_length <= max_identifier_length")
+             "IdentifierError; the index/constraint helpers hand on `dialect.max_<kind>_name_length or "
+             "dialect.max_identifier_length` on every path (evaluated symbolically); label_length <= max_identifier_length "
+             "is enforced in initialize() against the value read after every write of max_identifier_length there")
 def r1(ctx):
     f = inline_helpers(ctx, ctx.func(f"{PREP}._truncate_and_render_maxlen_name"), skip=("quote",))
     p_name, p_max = f.params[1], f.params[2]
@@ -504,23 +507,6 @@ def _attr_gt_operands(atoms):
                 out.append((l, r_, not pol, e))
             elif op is ast.GtE:
                 out.append((r_, l, not pol, e))
-    return out
-
-
-def _attr_gt_guards(atoms):
-    """[(a text, b text, polarity, key)] for atoms `a > b` / `b < a` / `not a <= b` between plain attribute chains."""
-    out = []
-    for e, pol in atoms:
-        if isinstance(e, ast.Compare) and len(e.ops) == 1 and dotted(e.left) and dotted(e.comparators[0]):
-            l, r_, op = dotted(e.left), dotted(e.comparators[0]), type(e.ops[0])
-            if op is ast.Gt:
-                out.append((l, r_, pol, unparse(e)))
-            elif op is ast.Lt:
-                out.append((r_, l, pol, unparse(e)))
-            elif op is ast.LtE:
-                out.append((l, r_, not pol, unparse(e)))
-            elif op is ast.GtE:
-                out.append((r_, l, not pol, unparse(e)))
     return out
 
 
@@ -1408,9 +1394,7 @@ R.mutant("r1-label-length-compared-with-limit-read-before-detection", _DEFAULT,
                     check='        if self.label_length and self.label_length > ident_limit:\n'
                           '            raise exc.ArgumentError("Label length %d exceeds %d" % (self.label_length, ident_limit))\n'), "C21-R1")
 R.mutant("r1-label-length-checked-only-without-user-defined-limit", _DEFAULT,
-         _init_edit(check=_LL_CHECK.replace("            self.label_length\n            and", "            self.label_length\n            and not self._user_defined_max_identifier_length\n            and", 1)
-                    .replace("        if (\n", "        if not self._user_defined_max_identifier_length and (\n", 1)
-                    .replace("            and not self._user_defined_max_identifier_length\n", "", 1)), "C21-R1")
+         _init_edit(check=_LL_CHECK.replace("        if (\n", "        if not self._user_defined_max_identifier_length and (\n", 1)), "C21-R1")
 R.mutant("r1-detection-moved-behind-label-length-check", _DEFAULT,
          sub(_LL_DETECT + "\n" + _LL_CHECK, _LL_CHECK + "\n" + _LL_DETECT), "C21-R1")
 R.mutant("benign-label-length-check-in-helper-after-detection", _DEFAULT,
